@@ -58,6 +58,12 @@ def event_registration(seq, ev):
     """what register_* would store for `ev`, computed by the implementation's own register
     functions on a scratch Sequence with the same rasters (numeric extraction is not modelled)"""
     s = scratch_like(seq)
+    if hasattr(ev, 'id') or hasattr(ev, 'shape_IDs'):
+        import copy as _copy
+        ev = _copy.copy(ev)           # by-value registration on the scratch object: ids refer to the real store
+        for a in ('id', 'shape_IDs'):
+            if hasattr(ev, a):
+                delattr(ev, a)
     if ev.type == 'rf':
         rid, sids = s.register_rf_event(ev)
         data = s.rf_library.data[rid]
